@@ -8,18 +8,40 @@ open M
 
 /-! ### the side conditions of C01 items look at the core context only through its flag table -/
 
+theorem NotCoreFlag_congr (ic ic' : Ctx) (hfl : ic'.flags = ic.flags) (v : Tok) (h : NotCoreFlag (some ic) v) :
+    NotCoreFlag (some ic') v := by
+  intro c0 hc0
+  cases hc0
+  rw [hfl]; exact h ic rfl
+
+theorem OptValueOK_congr (ic ic' : Ctx) (hfl : ic'.flags = ic.flags) (reg : List Ctx) (c : Ctx) (a : Arg) (v : Tok)
+    (h : OptValueOK (some ic) reg c a v) : OptValueOK (some ic') reg c a v := by
+  rcases h with h | ⟨h1, h2, h3, h4, h5⟩
+  · exact Or.inl h
+  · refine Or.inr ⟨?_, NotCoreFlag_congr ic ic' hfl v h2, h3, h4, h5⟩
+    rcases h1 with h1 | ⟨g1, g2, g3, g4⟩
+    · exact Or.inl h1
+    · exact Or.inr ⟨g1, g2, NotCoreFlag_congr ic ic' hfl _ g3, NotCoreFlag_congr ic ic' hfl _ g4⟩
+
+theorem ValFlagOK_congr (ic ic' : Ctx) (hfl : ic'.flags = ic.flags) {reg : List Ctx} {c : Ctx} {fl : Tok} {i : Nat} {v : Tok}
+    {a a' : Arg} (h : ValFlagOK (some ic) reg c fl i v a a') : ValFlagOK (some ic') reg c fl i v a a' :=
+  ⟨h.hfl, h.hai, h.tv, h.fresh, h.hv1, h.hv2, h.give, OptValueOK_congr ic ic' hfl reg c a v h.opt⟩
+
 theorem Item.ok_congr (ic ic' : Ctx) (hfl : ic'.flags = ic.flags) (reg : List Ctx) (c : Ctx) (it : Item)
     (h : it.ok (some ic) reg c) : it.ok (some ic') reg c := by
   cases it with
   | pos v j =>
     obtain ⟨h1, h2, h3, h4, h5⟩ := h
-    refine ⟨h1, h2, h3, ?_, h5⟩
-    intro c0 hc0
-    cases hc0
-    rw [hfl]; exact h4 ic rfl
-  | spaced fl v i => exact h
-  | eq fl v i => exact h
-  | glued x y w i => exact h
+    exact ⟨h1, h2, h3, NotCoreFlag_congr ic ic' hfl v h4, h5⟩
+  | spaced fl v i =>
+    obtain ⟨h1, a, a', h2⟩ := h
+    exact ⟨h1, a, a', ValFlagOK_congr ic ic' hfl h2⟩
+  | eq fl v i =>
+    obtain ⟨h1, a, a', h2⟩ := h
+    exact ⟨h1, a, a', ValFlagOK_congr ic ic' hfl h2⟩
+  | glued x y w i =>
+    obtain ⟨h1, h2, a, a', h3⟩ := h
+    exact ⟨h1, h2, a, a', ValFlagOK_congr ic ic' hfl h3⟩
   | toggle fl i => exact h
   | inverse nofl i => exact h
   | block x i rest => exact h
@@ -164,7 +186,9 @@ theorem coreStep_value_spaced (ic : Ctx) (reg : List Ctx) (c : Ctx) (tok v : Tok
     have hhv : m1.handle v = .ok (m.withCore (ic.setArg i a') (some (.initial, i)) true) := by
       unfold M.handle
       have hst1 : m1.st = .context := hr.st
-      simp only [hst1, hctx1, hvf, hvinv, Option.isSome_none, Bool.false_eq_true, if_false, reduceCtorEq, hw1, if_true]
+      have hop1 : m1.optionalPending = false := by simp [M.optionalPending, hfa1, ho]
+      simp only [hst1, hctx1, hvf, hvinv, Option.isSome_none, Bool.false_eq_true, if_false, reduceCtorEq, hw1, hop1, Bool.false_and,
+        Bool.not_false, Bool.and_self, if_true]
       unfold M.seeValue M.checkAmbiguity
       simp only [hfa1, ho, bind, Except.bind, ht, if_true, hs, Bool.false_eq_true, if_false]
       simp [M.updFlagArg, m1, hi, M.withCore, Ctx.setArg]
@@ -217,74 +241,112 @@ theorem finish_rel {pend : Bool} {m5 m5e : M} {c5 : Ctx} (hrel : Rel m5 m5e) (hb
       rw [hctx]
       simp [hmiss]
 
+/-! ### a core item directly after a bare optional-value flag of the task (the formerly excluded point) -/
+
+/-- while an optional-value TASK flag is pending, a core flag (not `--help`) is handled exactly as from the tied-off machine:
+    it is not taken as the pending flag's value -/
+theorem popt_handle_core {m c i a} (h : POpt m c i a) (ic : Ctx) (tok : Tok) (j : Nat) (b : Arg)
+    (hi : m.initial = some ic) (hnt : m.lookupCtx tok = none)
+    (hcf : assoc? tok c.flags = none) (hcinv : assoc? tok c.inverse = none)
+    (hf : assoc? tok ic.flags = some j) (hb : ic.args[j]? = some b) (hh : b.spec.names.headD [] ≠ "help".toList) :
+    m.handle tok = (m.completed c i a).handle tok := by
+  obtain ⟨hc, hfa, hw, _⟩ := popt_facts h
+  have hr := popt_ready h
+  have hc' : (m.completed c i a).ctx = some (c.setArg i a.seen) := by simp [M.ctx, M.completed, h.notInit]
+  have hst' : (m.completed c i a).st = .context := h.st
+  have hi' : (m.completed c i a).initial = some ic := hi
+  have hci' : (m.completed c i a).curIsInitial = false := h.notInit
+  have hnt' : (m.completed c i a).lookupCtx tok = none := hnt
+  have hop : m.optionalPending = true := by simp [M.optionalPending, hfa, h.opt]
+  have hcft : m.coreFlagInTask tok = true := by simp [M.coreFlagInTask, h.notInit, hi, hf]
+  have e1 : (c.setArg i a.seen).flags = c.flags := rfl
+  have e2 : (c.setArg i a.seen).inverse = c.inverse := rfl
+  unfold M.handle
+  simp only [h.st, hst', hc, hc', e1, e2, hcf, hcinv, hw, hr.nw, hop, hcft, hi, hi', h.notInit, hci', hnt, hnt', hf, hb, hh,
+    Option.isSome_none, Option.isSome_some, Bool.false_eq_true, if_false, reduceCtorEq, Bool.and_self, Bool.not_true,
+    Bool.and_false, Bool.not_false, Bool.false_and, if_true, Option.bind_some]
+  exact popt_switchToFlag h tok false hnt
+
+/-- a core-flag-led token after a bare optional-value flag is processed as from the tied-off machine -/
+theorem popt_procTok_core {m c i a} (h : POpt m c i a) (ic : Ctx) (n : Nat) (t : Tok) (p : Tok × List Tok) (j : Nat) (b : Arg)
+    (hp : presplit (m.completed c i a) t = .ok p)
+    (hi : m.initial = some ic) (hnt : m.lookupCtx p.1 = none)
+    (hcf : assoc? p.1 c.flags = none) (hcinv : assoc? p.1 c.inverse = none)
+    (hf : assoc? p.1 ic.flags = some j) (hb : ic.args[j]? = some b) (hh : b.spec.names.headD [] ≠ "help".toList) :
+    procTok (n + 1) m t = procTok (n + 1) (m.completed c i a) t := by
+  obtain ⟨hc, hfa, hw, _⟩ := popt_facts h
+  have hr := popt_ready h
+  have hp0 : presplit m t = .ok p := by rw [← popt_presplit h t]; exact hp
+  have hrb' : rollback (m.completed c i a) t p = p := by simp [rollback, hr.nw]
+  have hcft : m.coreFlagInTask p.1 = true := by simp [M.coreFlagInTask, h.notInit, hi, hf]
+  have hrb : rollback m t p = p := by simp [rollback, hw, keepSplit, hfa, h.opt, hcft]
+  have hh' := popt_handle_core h ic p.1 j b hi hnt hcf hcinv hf hb hh
+  conv => lhs; unfold procTok
+  conv => rhs; unfold procTok
+  simp only [hp0, hp, hrb, hrb', hh']
+
+/-- a core item that may also come directly after a bare optional-value flag of the task: there its tokens are processed
+    exactly as from the machine in which that flag has been tied off with `True` -/
+def CoreStepB (ic ic' : Ctx) (reg : List Ctx) (c : Ctx) (toks : List Tok) : Prop :=
+  CoreStep ic ic' reg c toks ∧
+  ∀ m c0 i a, POpt m c0 i a → c = c0.setArg i a.seen → m.initial = some ic → m.registry = reg →
+    runToks m toks = runToks (m.completed c0 i a) toks
+
+theorem ItemsOK_weaken (ic : Option Ctx) (reg : List Ctx) (pend : Bool) (c : Ctx) :
+    ∀ (items : List Item), ItemsOK ic reg pend c items → ItemsOK ic reg false c items
+  | [], _ => trivial
+  | _ :: _, h => ⟨h.1, fun hh => Bool.noConfusion hh, h.2.2⟩
+
+theorem endsBare_indep (p q : Bool) : ∀ (items : List Item), items ≠ [] → endsBare p items = endsBare q items
+  | [], h => absurd rfl h
+  | _ :: _, _ => rfl
+
 /-- the tokens of a call with a core item inserted between its items `pre` and `post` -/
 def argvWithCore (k : Call) (pre post : List Item) (ctoks : List Tok) (calls2 : List Call) : List Tok :=
   k.tname :: (pre.flatMap Item.toks ++ (ctoks ++ (post.flatMap Item.toks ++ calls2.flatMap Call.toks)))
 
-/-- MAIN COMPOSITION.  A chain `k :: calls2` whose first call's items are `pre ++ post`, with a core item inserted
-    between `pre` and `post` (not directly after a bare optional-value flag): the whole token list runs through, and at
-    the end the core context is `ic'` and the task contexts are exactly those of the chain without the core item. -/
-theorem run_with_core (ic ic' : Ctx) (reg : List Ctx) (ign : Bool) (k : Call) (pre post : List Item) (calls2 : List Call)
-    (ctoks : List Tok) (hfl : ic'.flags = ic.flags) (hk : k.items = pre ++ post)
-    (hok : ChainOK (some ic) reg (some ic) (k :: calls2))
-    (hpre : endsBare false pre = false)
-    (hcore : CoreStep ic ic' reg (pre.foldl Item.apply k.ctx) ctoks) :
-    ∃ m5 m6 c5, runToks (M.start (some ic) reg ign) (argvWithCore k pre post ctoks calls2) = .ok m5 ∧
+/-- from a machine between two items: the core item, the remaining items `post` of the call and the following calls -/
+theorem run_core_rest (ic ic' : Ctx) (reg : List Ctx) (cpre : Ctx) (post : List Item) (calls2 : List Call) (ctoks : List Tok)
+    (hfl : ic'.flags = ic.flags) (m2 : M) (hr2 : Ready m2 cpre) (hinit2 : m2.initial = some ic) (hreg2 : m2.registry = reg)
+    (hipost : ItemsOK (some ic) reg false cpre post)
+    (hlast : calls2 ≠ [] → endsBare false post = false)
+    (hrest : ChainOK (some ic) reg (some (post.foldl Item.apply cpre)) calls2)
+    (hcore : CoreStep ic ic' reg cpre ctoks) :
+    ∃ m5 m6 c5, runToks m2 (ctoks ++ (post.flatMap Item.toks ++ calls2.flatMap Call.toks)) = .ok m5 ∧
       M.enter { m5 with st := .end } = .ok m6 ∧ m6.cur = some c5 ∧ m6.curIsInitial = false ∧ m6.unparsed = [] ∧
-      m6.initial = some ic' ∧ m6.done ++ [c5] = (k :: calls2).map Call.result := by
-  obtain ⟨⟨hname, hfind, hitems⟩, hlast, hrest⟩ := hok
-  rw [hk] at hitems
-  obtain ⟨hipre, hipost⟩ := ItemsOK_append (some ic) reg pre post false k.ctx hitems
-  rw [hpre] at hipost
-  obtain ⟨m1, hrun1, hr1, hi1, hd1, hg1, hu1⟩ := first_switch (some ic) reg ign k.tname k.ctx hname hfind
-  have hipre' : ItemsOK m1.initial m1.registry false k.ctx pre := by rw [hi1, hg1]; exact hipre
-  have hb1 : Btw false m1 k.ctx := by simpa [Btw] using hr1
-  obtain ⟨m2, hrun2, hb2, hf2⟩ := items_step pre hb1 hipre'
-  rw [hpre] at hb2
-  have hr2 : Ready m2 (pre.foldl Item.apply k.ctx) := by simpa [Btw] using hb2
-  have hinit2 : m2.initial = some ic := by rw [hf2.1, hi1]
-  have hreg2 : m2.registry = reg := by rw [hf2.2.2.1, hg1]
-  have hd2 : m2.done = [] := by rw [hf2.2.1, hd1]
+      m6.initial = some ic' ∧ m6.done ++ [c5] = m2.done ++ (post.foldl Item.apply cpre) :: calls2.map Call.result := by
   obtain ⟨fl, g, hrun3, hin3⟩ := hcore m2 hr2 hinit2 hreg2
-  -- the erased machine is `Ready` again, with core context `ic'`
   have hr3e := ready_erased hr2 ic' fl g
   have hrel3 : Rel (m2.withCore ic' fl g) ((m2.withCore ic' fl g).reflag none false) :=
     Or.inr ⟨none, false, rfl, hin3, inert_noflag _ rfl⟩
   have hipost' : ItemsOK ((m2.withCore ic' fl g).reflag none false).initial ((m2.withCore ic' fl g).reflag none false).registry
-      false (pre.foldl Item.apply k.ctx) post := by
+      false cpre post := by
     have e1 : ((m2.withCore ic' fl g).reflag none false).initial = some ic' := rfl
     have e2 : ((m2.withCore ic' fl g).reflag none false).registry = reg := hreg2
     rw [e1, e2]; exact ItemsOK_congr ic ic' hfl reg post _ _ hipost
-  have hb3e : Btw false ((m2.withCore ic' fl g).reflag none false) (pre.foldl Item.apply k.ctx) := by simpa [Btw] using hr3e
+  have hb3e : Btw false ((m2.withCore ic' fl g).reflag none false) cpre := by simpa [Btw] using hr3e
   obtain ⟨m4e, hrun4, hb4, hf4⟩ := items_step post hb3e hipost'
-  have hres : post.foldl Item.apply (pre.foldl Item.apply k.ctx) = k.result := by
-    simp [Call.result, hk, List.foldl_append]
-  rw [hres] at hb4
   have hinit4 : m4e.initial = some ic' := by rw [hf4.1]; rfl
   have hreg4 : m4e.registry = reg := by rw [hf4.2.2.1]; exact hreg2
-  have hd4 : m4e.done = [] := by rw [hf4.2.1]; exact hd2
-  -- the rest of the chain on the erased machine
+  have hd4 : m4e.done = m2.done := hf4.2.1
   have key : ∃ m5e c5 pend, runToks ((m2.withCore ic' fl g).reflag none false)
         (post.flatMap Item.toks ++ calls2.flatMap Call.toks) = .ok m5e ∧ Btw pend m5e c5 ∧
-        m5e.initial = some ic' ∧ c5.missingPositional = [] ∧ m5e.done ++ [c5] = (k :: calls2).map Call.result := by
+        m5e.initial = some ic' ∧ c5.missingPositional = [] ∧
+        m5e.done ++ [c5] = m2.done ++ (post.foldl Item.apply cpre) :: calls2.map Call.result := by
     cases calls2 with
     | nil =>
-      refine ⟨m4e, k.result, endsBare false post, ?_, hb4, hinit4, hrest _ rfl, ?_⟩
+      refine ⟨m4e, _, endsBare false post, ?_, hb4, hinit4, hrest _ rfl, ?_⟩
       · simp only [List.flatMap_nil, List.append_nil]; exact hrun4
       · rw [hd4]; simp
     | cons k2 r2 =>
-      have hnb : endsBare false post = false := by
-        have := hlast (by simp)
-        rw [hk, endsBare_append, hpre] at this; exact this
-      rw [hnb] at hb4
-      have hr4 : Ready m4e k.result := by simpa [Btw] using hb4
+      rw [hlast (by simp)] at hb4
+      have hr4 : Ready m4e (post.foldl Item.apply cpre) := by simpa [Btw] using hb4
       obtain ⟨m5e, c5, pend, hrun5, hb5, hi5, _, _, hm5, hd5⟩ :=
         chain_step (some ic') reg (k2 :: r2) hr4 hinit4 hreg4 (ChainOK_congr ic ic' hfl reg _ _ hrest)
       refine ⟨m5e, c5, pend, ?_, hb5, hi5, hm5, ?_⟩
       · rw [runToks_append, hrun4]; exact hrun5
       · rw [hd5, hd4]; simp
   obtain ⟨m5e, c5, pend, hrun5e, hb5, hi5, hm5, hdone⟩ := key
-  -- back to the real machine through the erasure lemma
   rcases runToks_rel (post.flatMap Item.toks ++ calls2.flatMap Call.toks) _ _ hrel3 with ⟨e, _, h2⟩ | ⟨m5, m5e', hrun5, h2, hrel5⟩
   · rw [hrun5e] at h2; cases h2
   · rw [hrun5e] at h2
@@ -292,12 +354,85 @@ theorem run_with_core (ic ic' : Ctx) (reg : List Ctx) (ign : Bool) (k : Call) (p
     subst this
     obtain ⟨m6, hfin, hcur6, hni6, hunp6, hi6, hd6⟩ := finish_rel hrel5 hb5 hm5
     refine ⟨m5, m6, c5, ?_, hfin, hcur6, hni6, hunp6, by rw [hi6, hi5], by rw [hd6]; exact hdone⟩
-    have e0 : argvWithCore k pre post ctoks calls2 =
-        [k.tname] ++ (pre.flatMap Item.toks ++ (ctoks ++ (post.flatMap Item.toks ++ calls2.flatMap Call.toks))) := rfl
-    rw [e0, runToks_append, hrun1]
-    simp only [bind, Except.bind]
-    rw [runToks_append, hrun2]
-    simp only [bind, Except.bind]
     rw [runToks_append, hrun3]
     exact hrun5
+
+/-- MAIN COMPOSITION, from the machine that has just switched to call `k`: items `pre`, the core item (possibly directly
+    after a bare optional-value flag), items `post`, the following calls -/
+theorem run_with_core_from (ic ic' : Ctx) (reg : List Ctx) (k : Call) (pre post : List Item) (calls2 : List Call)
+    (ctoks : List Tok) (hfl : ic'.flags = ic.flags) (hk : k.items = pre ++ post)
+    (m1 : M) (hr1 : Ready m1 k.ctx) (hi1 : m1.initial = some ic) (hg1 : m1.registry = reg)
+    (hitems : ItemsOK (some ic) reg false k.ctx k.items)
+    (hlast : calls2 ≠ [] → endsBare false k.items = false)
+    (hrest : ChainOK (some ic) reg (some k.result) calls2)
+    (hcore : CoreStepB ic ic' reg (pre.foldl Item.apply k.ctx) ctoks) :
+    ∃ m5 m6 c5, runToks m1 (pre.flatMap Item.toks ++ (ctoks ++ (post.flatMap Item.toks ++ calls2.flatMap Call.toks))) = .ok m5 ∧
+      M.enter { m5 with st := .end } = .ok m6 ∧ m6.cur = some c5 ∧ m6.curIsInitial = false ∧ m6.unparsed = [] ∧
+      m6.initial = some ic' ∧ m6.done ++ [c5] = m1.done ++ (k :: calls2).map Call.result := by
+  rw [hk] at hitems
+  obtain ⟨hipre, hipost0⟩ := ItemsOK_append (some ic) reg pre post false k.ctx hitems
+  have hipost := ItemsOK_weaken (some ic) reg _ _ post hipost0
+  have hipre' : ItemsOK m1.initial m1.registry false k.ctx pre := by rw [hi1, hg1]; exact hipre
+  have hb1 : Btw false m1 k.ctx := by simpa [Btw] using hr1
+  obtain ⟨m2, hrun2, hb2, hf2⟩ := items_step pre hb1 hipre'
+  have hinit2 : m2.initial = some ic := by rw [hf2.1, hi1]
+  have hreg2 : m2.registry = reg := by rw [hf2.2.2.1, hg1]
+  have hd2 : m2.done = m1.done := hf2.2.1
+  have hres : post.foldl Item.apply (pre.foldl Item.apply k.ctx) = k.result := by
+    simp [Call.result, hk, List.foldl_append]
+  have hlast' : calls2 ≠ [] → endsBare false post = false := by
+    intro hne
+    have h := hlast hne
+    rw [hk, endsBare_append] at h
+    cases post with
+    | nil =>
+      -- the call would end with the bare flag although calls follow: excluded by the chain conditions; then `pre` is not bare
+      simpa [endsBare] using h
+    | cons it r => rw [endsBare_indep _ false (it :: r) (by simp)] at h; exact h
+  have hrest' : ChainOK (some ic) reg (some (post.foldl Item.apply (pre.foldl Item.apply k.ctx))) calls2 := by rw [hres]; exact hrest
+  cases hpb : endsBare false pre with
+  | false =>
+    rw [hpb] at hb2
+    have hr2 : Ready m2 (pre.foldl Item.apply k.ctx) := by simpa [Btw] using hb2
+    obtain ⟨m5, m6, c5, hrun5, hfin, h1, h2, h3, h4, h5⟩ :=
+      run_core_rest ic ic' reg _ post calls2 ctoks hfl m2 hr2 hinit2 hreg2 hipost hlast' hrest' hcore.1
+    refine ⟨m5, m6, c5, ?_, hfin, h1, h2, h3, h4, ?_⟩
+    · rw [runToks_append, hrun2]; exact hrun5
+    · rw [h5, hd2, hres]; rfl
+  | true =>
+    rw [hpb] at hb2
+    simp only [Btw, if_true] at hb2
+    obtain ⟨c0, i, a, hp, hceq⟩ := hb2
+    have hr2 := popt_ready hp
+    rw [← hceq] at hr2
+    have hfr := popt_frame hp
+    have heq := hcore.2 m2 c0 i a hp hceq hinit2 hreg2
+    obtain ⟨m5, m6, c5, hrun5, hfin, h1, h2, h3, h4, h5⟩ :=
+      run_core_rest ic ic' reg _ post calls2 ctoks hfl (m2.completed c0 i a) hr2 (by rw [hfr.1]; exact hinit2)
+        (by rw [hfr.2.2.1]; exact hreg2) hipost hlast' hrest' hcore.1
+    refine ⟨m5, m6, c5, ?_, hfin, h1, h2, h3, h4, ?_⟩
+    · rw [runToks_append, hrun2]
+      simp only [bind, Except.bind]
+      rw [runToks_append] at hrun5 ⊢
+      rw [heq]; exact hrun5
+    · rw [h5, hfr.2.1, hd2, hres]; rfl
+
+/-- … for the FIRST call of a chain, from the start machine -/
+theorem run_with_core (ic ic' : Ctx) (reg : List Ctx) (ign : Bool) (k : Call) (pre post : List Item) (calls2 : List Call)
+    (ctoks : List Tok) (hfl : ic'.flags = ic.flags) (hk : k.items = pre ++ post)
+    (hok : ChainOK (some ic) reg (some ic) (k :: calls2))
+    (hcore : CoreStepB ic ic' reg (pre.foldl Item.apply k.ctx) ctoks) :
+    ∃ m5 m6 c5, runToks (M.start (some ic) reg ign) (argvWithCore k pre post ctoks calls2) = .ok m5 ∧
+      M.enter { m5 with st := .end } = .ok m6 ∧ m6.cur = some c5 ∧ m6.curIsInitial = false ∧ m6.unparsed = [] ∧
+      m6.initial = some ic' ∧ m6.done ++ [c5] = (k :: calls2).map Call.result := by
+  obtain ⟨⟨hname, hfind, hitems⟩, hlast, hrest⟩ := hok
+  obtain ⟨m1, hrun1, hr1, hi1, hd1, hg1, _⟩ := first_switch (some ic) reg ign k.tname k.ctx hname hfind
+  obtain ⟨m5, m6, c5, hrun5, hfin, h1, h2, h3, h4, h5⟩ :=
+    run_with_core_from ic ic' reg k pre post calls2 ctoks hfl hk m1 hr1 hi1 hg1 hitems hlast hrest hcore
+  refine ⟨m5, m6, c5, ?_, hfin, h1, h2, h3, h4, by rw [h5, hd1]; rfl⟩
+  have e0 : argvWithCore k pre post ctoks calls2 =
+      [k.tname] ++ (pre.flatMap Item.toks ++ (ctoks ++ (post.flatMap Item.toks ++ calls2.flatMap Call.toks))) := rfl
+  rw [e0, runToks_append, hrun1]
+  exact hrun5
+
 end Inv
